@@ -152,7 +152,14 @@ func (e *env) invoke(inv *ugo.Invoker, id int, callee ugo.Object, args []ugo.Obj
 		e.st.goInvokes++
 		e.st.invokedFns[cf] = true
 	}
-	v, err := inv.Invoke(args...)
+	// a Go caller may re-use its argument buffer for the next call: what the callee keeps of its
+	// arguments (the array packed for a variadic parameter, say) must not alias that buffer
+	buf := make([]ugo.Object, len(args))
+	copy(buf, args)
+	v, err := inv.Invoke(buf...)
+	for i := range buf {
+		buf[i] = ugo.String("<the caller re-used its argument buffer>")
+	}
 	e.cur = e.cur[:len(e.cur)-1]
 	if err != nil {
 		e.st.errs++
